@@ -295,7 +295,11 @@ class Output(IOutput, Loggable):
                 self._total_mem / 1048576,
             )
             self._mem_counter += 1
-            np.save(fn, data.magnitude)
+            if np.ma.isMaskedArray(data.magnitude):
+                # np.save can't store masked arrays: pickle them (np.load reads both)
+                data.magnitude.dump(fn)
+            else:
+                np.save(fn, data.magnitude)
             return fn
 
         self._total_mem += data_size
